@@ -57,6 +57,16 @@ Fixpoint tpl_skew (t1 t2 : list tseg) : bool :=
 (* apart under StrictSlash matching too: no request path is answered (exactly or with the trailing-slash redirect) by both *)
 Definition tpl_apart (t1 t2 : list tseg) : bool := tpl_disjoint t1 t2 && tpl_skew t1 t2 && tpl_skew t2 t1.
 
+(* a template as text (Diag/) *)
+Definition show_tseg (a : tseg) : string :=
+  match a with
+  | TLit s => s
+  | TVar n => "{" ++ n ++ "}"
+  | TAlt n l => "{" ++ n ++ ":" ++ String.concat "|" l ++ "}"
+  | TRest n => "{" ++ n ++ ":.*}"
+  end.
+Definition show_tpl (t : list tseg) : string := String.concat "/" (map show_tseg t).
+
 (* ---- order-insensitive comparison of two first-match tables ----
    eqb: equality of entries; apart x y: the order of x and y is irrelevant. l2 is accepted iff it is l1 up to exchanging
    neighbours that are apart: the head x of l1 is looked up in l2 (first occurrence), everything registered before it
